@@ -8,9 +8,9 @@
   trip is `roundtrip_scalar_fragment`; the round trip of whole schema trees (every keyword; no nil child) is
   `roundtrip_tree` (helper lemmas: JSV/Proofs/MshTree.lean); what is missing for the full statement is listed
   after it.  The tree read back accepts the same instances: `roundtrip_tree_meaning_partial` (reference-free trees, any
-  tables; helper lemmas: JSV/Proofs/IsoValid.lean) and `roundtrip_tree_meaning_resolved_partial` (trees with references, both sides
+  tables; helper lemmas: JSV/Proofs/IsoValid.lean) and `roundtrip_tree_meaning_resolved` (trees with references, both sides
   resolved; helper lemmas: JSV/Proofs/ResIso*.lean, ResIsoNorm.lean — Resolve commutes with a renaming of node ids and
-  does not see the normal forms).
+  does not see the normal forms; JSV/Proofs/MshIsTree.lean — what UnmarshalJSON allocates is a tree, `unmarshal_is_tree`).
 -/
 import JSV.Proofs.MshRound
 import JSV.Proofs.MshScalar
@@ -19,6 +19,8 @@ import JSV.Proofs.MshTree
 import JSV.Proofs.IsoValid
 import JSV.Proofs.RefineCheck
 import JSV.Proofs.ResIsoNorm
+import JSV.Proofs.MshIsTree
+import JSV.Proofs.ResIsoNormDocs
 namespace JSV.C05
 open JSV Go
 
@@ -444,8 +446,9 @@ theorem treeEq_validate_same_partial {d : Nat} {a b : NodeId} (env₁ env₂ : G
     as the mirror image of `hcs`; (b) the simulation lemma `Go.RIso.resolve_rel` is itself directional (`DirRel`,
     `RNode.localOk` is an implication), so the converse — expected to hold under (a) — is not proved here.
     PARTIAL in one respect: "checkStructure accepts `b`" — i.e. the tree read back is a tree, every JSON object having
-    been decoded into a fresh `Schema` — is assumed, not derived from the model of UnmarshalJSON (for CloneSchemas the
-    corresponding fact is proved: `C20.clone_is_tree`). -/
+    been decoded into a fresh `Schema` — is assumed here, for an arbitrary `st'` (for CloneSchemas the corresponding
+    fact is `C20.clone_is_tree`).  When `b` does come out of UnmarshalJSON it is a theorem, `unmarshal_is_tree`, and
+    the hypothesis is gone: `treeEq_resolves_unmarshal`, `roundtrip_tree_resolves`, `roundtrip_tree_meaning_resolved`. -/
 theorem treeEq_resolves_partial (st st' : Store) (env : Go.Env) (hnd : Go.RIso.NoDocs env)
     (hk : Go.RPerm.StoreKeysNodup st) (hs : st.size ≤ 1000000000) (hs' : st'.size ≤ 1000000000) {a b : NodeId} {d : Nat}
     (hte : Go.TreeEq st st' d a b) (hwf : Go.treeAll Go.nodeOK st d a = true) (fuel : Nat) (base : String)
@@ -466,9 +469,9 @@ theorem treeEq_resolves_partial (st st' : Store) (env : Go.Env) (hnd : Go.RIso.N
     RESOLVED ON ITS OWN (same options, base URI and fuel), have the same draft and Loader log and accept the same
     instances: Spec results that agree up to the order of the evaluated-property list, the same verdict, with every
     amount of fuel.  No hypothesis on `$ref` / `$dynamicRef`.
-    PARTIAL: (i) the resolution is self-contained (`NoDocs`: documents fetched through a Loader are not covered — for
-    CloneSchemas they are, `C20.clone_validates_same_docs`); (ii) that `Resolve` of the second tree returns normally is
-    a hypothesis here (`h₂`); it follows from `Resolve` of the first one returning normally when checkStructure accepts
+    PARTIAL: (i) the resolution is self-contained (`NoDocs`; with documents fetched through a Loader:
+    `roundtrip_tree_meaning_resolved_docs`, as `C20.clone_validates_same_docs` for CloneSchemas); (ii) that
+    `Resolve` of the second tree returns normally is a hypothesis here (`h₂`); it follows from `Resolve` of the first one returning normally when checkStructure accepts
     the second tree (`treeEq_resolves_partial`). -/
 theorem treeEq_meaning_resolved_partial (st st' : Store) (env : Go.Env) (hnd : Go.RIso.NoDocs env)
     (hk : Go.RPerm.StoreKeysNodup st) (hs : st.size ≤ 1000000000) (hs' : st'.size ≤ 1000000000) {a b : NodeId} {d : Nat}
@@ -494,8 +497,9 @@ theorem treeEq_meaning_resolved_partial (st st' : Store) (env : Go.Env) (hnd : G
     instances (the same verdict; Spec results equal up to the order of the evaluated-property list), with every amount
     of fuel — trees with `$ref` / `$dynamicRef` / `$id` / `$anchor` / `$dynamicAnchor` included.
     PARTIAL: (i) self-contained resolution only (`NoDocs`); (ii) that `Resolve` of the tree read back does return
-    normally when `Resolve` of the original does is `treeEq_resolves_partial`, up to: the tree read back is accepted by
-    checkStructure (UnmarshalJSON decodes every JSON object into a fresh `Schema`; not derived from its model). -/
+    normally when `Resolve` of the original does is a hypothesis here (`treeEq_resolves_partial` derives it from
+    "checkStructure accepts the tree read back").  Superseded by `roundtrip_tree_meaning_resolved`, where (ii) is
+    proved (`unmarshal_is_tree`: UnmarshalJSON decodes every JSON object into a fresh `Schema`). -/
 theorem roundtrip_tree_meaning_resolved_partial (st : Store) (id : NodeId) (j : Json) (st₂ : Store)
     (hwf : TreeWF st id) (hj : Go.marshal st id = .ok j) (hk : Go.RPerm.StoreKeysNodup st)
     (hs : st.size ≤ 1000000000) (env : Go.Env) (hnd : Go.RIso.NoDocs env) :
@@ -516,13 +520,179 @@ theorem roundtrip_tree_meaning_resolved_partial (st : Store) (id : NodeId) (j : 
   exact ⟨id', st₂', hu, fun fuel base rs rs' hs' h₁ h₂ =>
     treeEq_meaning_resolved_partial st st₂' env hnd hk hs hs' hte hok fuel base rs rs' h₁ h₂⟩
 
+/-! ## the tree read back IS a tree: no hypothesis on checkStructure left -/
+
+/-- `unmarshal_tree_upto_nil`.  What UnmarshalJSON allocates is a tree, for EVERY JSON value `j` and every store: in the
+    store where the nil elements of schema lists and schema maps are dropped (`Go.UTree.patch`: a `null` ELEMENT of
+    `allOf`, `properties`, … is decoded into a nil pointer — the only thing checkStructure can object to), checkStructure
+    accepts the schema read back, and every schema it registers is a node allocated by the call.  Covered: duplicate
+    keys; a case variant of a keyword overwriting the field an earlier member has set (`Go.canonKey` / `Go.setMember`:
+    the earlier subtree becomes unreachable); the "items" union (each form clears the other); "dependencies" (schema
+    entries appended one by one, over several members too); boolean schemas (`false` is two nodes).
+    Proof (JSV/Proofs/MshIsTree.lean): every call of the recursion returns a node whose subtree lies in the interval of
+    ids `[size before, size after)`; the subtrees of two members occupy disjoint intervals. -/
+theorem unmarshal_tree_upto_nil (j : Json) (st : Store) (id : NodeId) (st' : Store)
+    (h : Go.unmarshal j st = .ok (id, st')) :
+    Go.Ext st st' ∧ ∃ f' fresh', Go.checkStructure (Go.UTree.patch st') f' [(id, "")] [] = .ok fresh' ∧
+      ∀ k, k ∈ fresh'.map (·.1) → st.size ≤ k ∧ k < st'.size := by
+  obtain ⟨e, D, ⟨f, hf⟩, hi⟩ := Go.UTree.unmarshalFuel_tree (j.size + 1) j st id st' "" h
+  exact ⟨e, f, D, hf, hi⟩
+
+/-- **`unmarshal_is_tree`**.  If every schema below the one read back exists (`Go.Full`: no `null` element of a schema
+    list or schema map was decoded into a nil pointer; `d` is any bound on the depth) and the store stays below the
+    model's nil id 10^9, checkStructure accepts the schema read back — it is a tree: every schema below it is met
+    once —, and every schema it registers is a node allocated by the call.  Any JSON value, any store (see
+    `unmarshal_tree_upto_nil` for what that covers).  The counterpart of `C20.clone_is_tree`. -/
+theorem unmarshal_is_tree (j : Json) (st : Store) (id : NodeId) (st' : Store) (d : Nat)
+    (h : Go.unmarshal j st = .ok (id, st')) (hfull : Go.Full st' d id) (hsz : st'.size ≤ 1000000000) :
+    ∃ f' fresh', Go.checkStructure st' f' [(id, "")] [] = .ok fresh' ∧
+      ∀ k, k ∈ fresh'.map (·.1) → st.size ≤ k ∧ k < st'.size :=
+  Go.UTree.unmarshal_checkStructure j st id st' "" d h hfull hsz
+
+/-- the tree read back from what MarshalJSON wrote for a well-formed tree is a tree: checkStructure accepts it -/
+theorem roundtrip_tree_is_tree (st : Store) (id : NodeId) (j : Json) (st₂ : Store) (id' : NodeId) (st₂' : Store)
+    (hwf : TreeWF st id) (hj : Go.marshal st id = .ok j) (hu : Go.unmarshal j st₂ = .ok (id', st₂'))
+    (hs' : st₂'.size ≤ 1000000000) :
+    ∃ f' fresh', Go.checkStructure st₂' f' [(id', "")] [] = .ok fresh' ∧
+      ∀ k, k ∈ fresh'.map (·.1) → st₂.size ≤ k ∧ k < st₂'.size := by
+  obtain ⟨id'', st₂'', hu', hte, -⟩ := roundtrip_tree st id j st₂ hwf hj
+  rw [hu] at hu'
+  cases hu'
+  exact unmarshal_is_tree j st₂ id' st₂' _ hu hte.full hs'
+
+/-- `treeEq_resolves_unmarshal`: `treeEq_resolves_partial` when the second tree comes out of UnmarshalJSON (of any JSON
+    value `j`, into any store `st₂`): that checkStructure accepts it is no hypothesis any more (`unmarshal_is_tree`;
+    `Go.TreeEq` says that every schema below `b` exists). -/
+theorem treeEq_resolves_unmarshal (st st₂ st' : Store) (j : Json) (env : Go.Env) (hnd : Go.RIso.NoDocs env)
+    (hk : Go.RPerm.StoreKeysNodup st) (hs : st.size ≤ 1000000000) (hs' : st'.size ≤ 1000000000) {a b : NodeId} {d : Nat}
+    (hu : Go.unmarshal j st₂ = .ok (b, st'))
+    (hte : Go.TreeEq st st' d a b) (hwf : Go.treeAll Go.nodeOK st d a = true) (fuel : Nat) (base : String)
+    (rs : Go.Resolved) (h₁ : Go.resolve { env with st := st } fuel a base = .ok rs) :
+    ∃ rs', Go.resolve { env with st := st' } fuel b base = .ok rs' ∧ rs.draft = rs'.draft ∧ rs.log = rs'.log ∧
+      ∀ (reMatch : String → String → Bool) (vfuel : Nat) (inst : Json), Json.WF inst = true →
+        Inv.OutSim (Spec.evalFuel (Go.RIso.specOf st rs reMatch) vfuel [] a inst)
+            (Spec.evalFuel (Go.RIso.specOf st' rs' reMatch) vfuel [] b inst) ∧
+          Spec.valid (Go.RIso.specOf st rs reMatch) vfuel a inst =
+            Spec.valid (Go.RIso.specOf st' rs' reMatch) vfuel b inst := by
+  obtain ⟨f', fresh', hcs, -⟩ := unmarshal_is_tree j st₂ b st' d hu hte.full hs'
+  exact treeEq_resolves_partial st st' env hnd hk hs hs' hte hwf fuel base rs h₁ f' fresh' hcs
+
+/-- **`roundtrip_tree_resolves`** (C05): Resolve commutes with the JSON round trip.  For a well-formed tree (`TreeWF`)
+    in a store whose maps have distinct keys: if `Resolve` of the original returns normally, then `Resolve` of the
+    tree UnmarshalJSON reads back from what MarshalJSON wrote — same options, same base URI, same fuel; read back into
+    any store `st₂`; stores below the nil id 10^9 — returns normally as well, with the same draft and the same Loader
+    log.  No hypothesis on the tree read back: that it is a tree is `roundtrip_tree_is_tree`.
+    Restriction left: self-contained resolution (`Go.RIso.NoDocs`: no Loader, or a Loader that hands out no document);
+    with documents fetched through a Loader: `roundtrip_tree_meaning_resolved_docs` below. -/
+theorem roundtrip_tree_resolves (st : Store) (id : NodeId) (j : Json) (st₂ : Store) (id' : NodeId) (st₂' : Store)
+    (hwf : TreeWF st id) (hj : Go.marshal st id = .ok j) (hu : Go.unmarshal j st₂ = .ok (id', st₂'))
+    (hk : Go.RPerm.StoreKeysNodup st) (hs : st.size ≤ 1000000000) (hs' : st₂'.size ≤ 1000000000)
+    (env : Go.Env) (hnd : Go.RIso.NoDocs env) (fuel : Nat) (base : String) (rs : Go.Resolved)
+    (h₁ : Go.resolve { env with st := st } fuel id base = .ok rs) :
+    ∃ rs', Go.resolve { env with st := st₂' } fuel id' base = .ok rs' ∧ rs.draft = rs'.draft ∧ rs.log = rs'.log := by
+  obtain ⟨id'', st₂'', hu', hte, -⟩ := roundtrip_tree st id j st₂ hwf hj
+  rw [hu] at hu'
+  cases hu'
+  have hok : Go.treeAll Go.nodeOK st (st.size + 2) id = true :=
+    Go.treeAll_mono (Go.treeAll_mono (Go.treeAll_imp
+      (fun n hn => by simp only [Go.nodeWF, Bool.and_eq_true] at hn; exact hn.1) hwf))
+  obtain ⟨rs', h₂, e1, e2, -⟩ := treeEq_resolves_unmarshal st st₂ st₂' j env hnd hk hs hs' hu hte hok fuel base rs h₁
+  exact ⟨rs', h₂, e1, e2⟩
+
+/-- **`roundtrip_tree_meaning_resolved`** (C05, no carve-out on references, no hypothesis on the tree read back).  For a
+    well-formed tree (`TreeWF`) in a store whose maps have distinct keys: if `Resolve` of the original returns normally,
+    `Resolve` of the tree read back returns normally, and the two — EACH RESOLVED ON ITS OWN — accept exactly the same
+    instances: for every instance without duplicate keys, with every amount of fuel, Spec results that agree up to the
+    order of the evaluated-property list, in particular the same verdict; trees with `$ref` / `$dynamicRef` / `$id` /
+    `$anchor` / `$dynamicAnchor` included.
+    Hypotheses: `TreeWF`; MarshalJSON wrote `j`; UnmarshalJSON read `j` back (into any store); `Resolve` of the original
+    returns normally; the maps of the original store have distinct keys (they are Go maps); both stores below the
+    model's nil id; self-contained resolution (`NoDocs`; lifted in `roundtrip_tree_meaning_resolved_docs`). -/
+theorem roundtrip_tree_meaning_resolved (st : Store) (id : NodeId) (j : Json) (st₂ : Store) (id' : NodeId) (st₂' : Store)
+    (hwf : TreeWF st id) (hj : Go.marshal st id = .ok j) (hu : Go.unmarshal j st₂ = .ok (id', st₂'))
+    (hk : Go.RPerm.StoreKeysNodup st) (hs : st.size ≤ 1000000000) (hs' : st₂'.size ≤ 1000000000)
+    (env : Go.Env) (hnd : Go.RIso.NoDocs env) (fuel : Nat) (base : String) (rs : Go.Resolved)
+    (h₁ : Go.resolve { env with st := st } fuel id base = .ok rs) :
+    ∃ rs', Go.resolve { env with st := st₂' } fuel id' base = .ok rs' ∧ rs.draft = rs'.draft ∧ rs.log = rs'.log ∧
+      ∀ (reMatch : String → String → Bool) (vfuel : Nat) (inst : Json), Json.WF inst = true →
+        Inv.OutSim (Spec.evalFuel (Go.RIso.specOf st rs reMatch) vfuel [] id inst)
+            (Spec.evalFuel (Go.RIso.specOf st₂' rs' reMatch) vfuel [] id' inst) ∧
+          Spec.valid (Go.RIso.specOf st rs reMatch) vfuel id inst =
+            Spec.valid (Go.RIso.specOf st₂' rs' reMatch) vfuel id' inst := by
+  obtain ⟨id'', st₂'', hu', hte, -⟩ := roundtrip_tree st id j st₂ hwf hj
+  rw [hu] at hu'
+  cases hu'
+  have hok : Go.treeAll Go.nodeOK st (st.size + 2) id = true :=
+    Go.treeAll_mono (Go.treeAll_mono (Go.treeAll_imp
+      (fun n hn => by simp only [Go.nodeWF, Bool.and_eq_true] at hn; exact hn.1) hwf))
+  exact treeEq_resolves_unmarshal st st₂ st₂' j env hnd hk hs hs' hu hte hok fuel base rs h₁
+
+/-- **`roundtrip_tree_meaning_resolved_docs`**: the same WITH documents fetched through a Loader (no `NoDocs`).  The
+    Loader universe is shared by both sides: `L` is a set of schemas (ids, nil ones included) that contains the root of
+    every document the Loader hands out, is closed under the schema-valued fields, is disjoint from the tree of `id`
+    (`hLdis`, as in `C20.clone_validates_same_docs`), and is also present, unchanged, in the store `st₂` the schema is
+    read back into (`hLst₂`, `hLeq`: e.g. `st₂ = st`, the schema is read back into the heap it was written from, next
+    to the Loader documents).  If `Resolve` of the original returns normally — references into Loader documents, and
+    from Loader documents back into the root document, included — then `Resolve` of the tree read back against the same
+    Loader returns normally with the same draft and the same Loader log (the same URIs fetched in the same order), and
+    the two accept exactly the same instances.
+    How the store-wide normalisation of `treeEq_resolves_partial` is avoided: the normal forms are applied to every schema
+    OUTSIDE `L` only (`Go.RIso.mapOff`; JSV/Proofs/ResIsoNormDocs.lean), so the two sides still agree on the Loader
+    universe; the tree of `id` lies outside `L`, in the set of schemas checkStructure registers for it. -/
+theorem roundtrip_tree_meaning_resolved_docs (st : Store) (id : NodeId) (j : Json) (st₂ : Store) (id' : NodeId)
+    (st₂' : Store) (hwf : TreeWF st id) (hj : Go.marshal st id = .ok j) (hu : Go.unmarshal j st₂ = .ok (id', st₂'))
+    (hk : Go.RPerm.StoreKeysNodup st) (hs : st.size ≤ 1000000000) (hs' : st₂'.size ≤ 1000000000)
+    (env : Go.Env) (L : NodeId → Prop)
+    (hLst₂ : ∀ a, L a → a < st₂.size ∨ 1000000000 ≤ a) (hLeq : ∀ a, L a → st₂.get? a = st.get? a)
+    (hLcl : ∀ a n, L a → st.get? a = some n → ∀ f, f ∈ n.childFields → ∀ x, x ∈ f.ids → L x)
+    (hLroots : ∀ t key l, env.loader = some t → Json.lookup key t = some (.doc l) → L l)
+    (hLdis : ∀ fresh, Go.checkStructure st (st.size + 2) [(id, "")] [] = .ok fresh → ∀ a, L a → a ∉ fresh.map (·.1))
+    (fuel : Nat) (base : String) (rs : Go.Resolved)
+    (h₁ : Go.resolve { env with st := st } fuel id base = .ok rs) :
+    ∃ rs', Go.resolve { env with st := st₂' } fuel id' base = .ok rs' ∧ rs.draft = rs'.draft ∧ rs.log = rs'.log ∧
+      ∀ (reMatch : String → String → Bool) (vfuel : Nat) (inst : Json), Json.WF inst = true →
+        Inv.OutSim (Spec.evalFuel (Go.RIso.specOf st rs reMatch) vfuel [] id inst)
+            (Spec.evalFuel (Go.RIso.specOf st₂' rs' reMatch) vfuel [] id' inst) ∧
+          Spec.valid (Go.RIso.specOf st rs reMatch) vfuel id inst =
+            Spec.valid (Go.RIso.specOf st₂' rs' reMatch) vfuel id' inst := by
+  obtain ⟨id'', st₂'', hu', hte, -⟩ := roundtrip_tree st id j st₂ hwf hj
+  rw [hu] at hu'
+  cases hu'
+  have hok : Go.treeAll Go.RIso.orderOK st (st.size + 2) id = true :=
+    Go.treeAll_mono (Go.treeAll_mono (Go.treeAll_imp
+      (fun n hn => by
+        simp only [Go.nodeWF, Bool.and_eq_true] at hn
+        exact Go.RIso.orderOK_of_nodeOK n hn.1) hwf))
+  obtain ⟨hext, -⟩ := unmarshal_tree_upto_nil j st₂ id' st₂' hu
+  obtain ⟨f', fresh', hcs', hiv⟩ := unmarshal_is_tree j st₂ id' st₂' _ hu hte.full hs'
+  obtain ⟨fresh₀, hcs₀⟩ := Go.RIso.resolve_ok_cs { env with st := st } fuel id base rs h₁
+  obtain ⟨rs', h₂, e1, e2, e3⟩ := Go.RIso.treeEq_resolves_docs st st₂' env L (fun x => x ∈ Go.RInv.ids fresh₀) hk hs hs'
+    hte hok (Go.RInv.checkStructure_root_mem st _ id fresh₀ hcs₀)
+    (fun x n hx hn c hc => Go.RInv.checkStructure_closed st _ _ _ _ hcs₀
+      (fun _ hid => absurd hid (by simp [Go.RInv.ids])) x hx n hn c hc)
+    (fun x hL hx => hLdis fresh₀ hcs₀ x hL hx)
+    (fun x hL => by
+      rcases hLst₂ x hL with hlt | hge
+      · rw [hext.2 x hlt, hLeq x hL]
+      · rw [Go.get?_eq_none_iff.2 (Nat.le_trans hs hge), Go.get?_eq_none_iff.2 (Nat.le_trans hs' hge)])
+    hLcl hLroots fuel base h₁ hcs'
+    (fun x hL hm => by
+      have := hiv x hm
+      rcases hLst₂ x hL with hlt | hge
+      · exact absurd hlt (Nat.not_lt.2 this.1)
+      · exact absurd (Nat.lt_of_lt_of_le this.2 hs') (Nat.not_lt.2 hge))
+  exact ⟨rs', h₂, e1, e2, fun reMatch vfuel inst hinst =>
+    ⟨e3 reMatch vfuel inst hinst, Iso.valid_of_outSim (e3 reMatch vfuel inst hinst)⟩⟩
+
 /-! ### What is missing for the full round trip
-  * `roundtrip_tree_meaning_resolved_partial` (the two trees accept the same instances, references included) is proved for the two trees
-    EACH RESOLVED ON ITS OWN, self-contained resolution (`Go.RIso.NoDocs`: documents fetched through a Loader are not
-    covered); that `Resolve` of the tree read back returns normally whenever `Resolve` of the original does is
-    `treeEq_resolves_partial`, which assumes that checkStructure accepts the tree read back (UnmarshalJSON decodes every
-    JSON object into a fresh `Schema`: not derived from the model of UnmarshalJSON; for CloneSchemas the corresponding
-    fact is `C20.clone_is_tree`); the evaluator-level corollary (`Go.validateFuel`) is stated for reference-free trees
+  * `roundtrip_tree_meaning_resolved` (the two trees accept the same instances, references included) is proved for the two trees
+    EACH RESOLVED ON ITS OWN: `Resolve` of the tree read back returns normally whenever `Resolve` of the original does
+    (`roundtrip_tree_resolves`; that checkStructure accepts the tree read back is `unmarshal_is_tree` /
+    `roundtrip_tree_is_tree`, derived from the model of UnmarshalJSON — the counterpart of `C20.clone_is_tree`);
+    with documents fetched through a Loader: `roundtrip_tree_meaning_resolved_docs` (a Loader universe shared by both
+    sides, present unchanged in the store the schema is read back into, disjoint from the tree); the statement is
+    directional (original resolves ⇒ tree read back resolves; see `treeEq_resolves_partial`, DIRECTION);
+    the evaluator-level corollary (`Go.validateFuel`) is stated for reference-free trees
     only (`treeEq_validate_same_partial`); `treeEq_marshal` is the corresponding statement for MarshalJSON;
   * nil children (`null` elements of schema lists / maps come back as nil pointers, a nil `*Schema` field that is
     set explicitly cannot be told from an absent one);
@@ -837,6 +1007,77 @@ example : ∃ j id' st₂', Go.marshal exRT 0 = .ok j ∧ Go.unmarshal j #[] = .
   | panic => rw [hj] at hok; cases hok
   | err => rw [hj] at hok; cases hok
 
+/-- `roundtrip_tree_meaning_resolved` applies to it — no hypothesis on the tree read back is left: `Resolve` of the
+    original returns normally (computed), hence `Resolve` of the tree read back does, and the two accept the same
+    instances -/
+example : ∃ j id' st₂' rs rs', Go.marshal exRT 0 = .ok j ∧ Go.unmarshal j #[] = .ok (id', st₂') ∧
+    Go.resolve exRTEnv 1 0 "" = .ok rs ∧ Go.resolve { exRTEnv with st := st₂' } 1 id' "" = .ok rs' ∧
+    rs.draft = rs'.draft ∧ rs.log = rs'.log ∧
+      ∀ (reMatch : String → String → Bool) (vfuel : Nat) (inst : Json), Json.WF inst = true →
+        Spec.valid (Go.RIso.specOf exRT rs reMatch) vfuel 0 inst =
+          Spec.valid (Go.RIso.specOf st₂' rs' reMatch) vfuel id' inst := by
+  have hall : (match Go.marshal exRT 0 with
+      | .ok j => match Go.unmarshal j #[] with
+        | .ok r => decide (r.2.size ≤ 1000000000)
+        | _ => false
+      | _ => false) = true := by decide +kernel
+  have hres : (Go.resolve exRTEnv 1 0 "").isOk = true := by decide +kernel
+  cases hj : Go.marshal exRT 0 with
+  | ok j =>
+    rw [hj] at hall
+    dsimp only at hall
+    cases hu : Go.unmarshal j #[] with
+    | ok r =>
+      obtain ⟨id', st₂'⟩ := r
+      rw [hu] at hall
+      dsimp only at hall
+      have hs' : st₂'.size ≤ 1000000000 := of_decide_eq_true hall
+      cases h₁ : Go.resolve exRTEnv 1 0 "" with
+      | ok rs =>
+        obtain ⟨rs', h₂, e1, e2, e3⟩ := roundtrip_tree_meaning_resolved exRT 0 j #[] id' st₂' exRT_wf hj hu exRT_keys
+          (by decide) hs' exRTEnv exRTEnv_noDocs 1 "" rs h₁
+        exact ⟨j, id', st₂', rs, rs', rfl, hu, rfl, h₂, e1, e2, fun reMatch vfuel inst hinst =>
+          (e3 reMatch vfuel inst hinst).2⟩
+      | fuel => rw [h₁] at hres; cases hres
+      | panic => rw [h₁] at hres; cases hres
+      | err => rw [h₁] at hres; cases hres
+    | fuel => rw [hu] at hall; cases hall
+    | panic => rw [hu] at hall; cases hall
+    | err => rw [hu] at hall; cases hall
+  | fuel => rw [hj] at hall; cases hall
+  | panic => rw [hj] at hall; cases hall
+  | err => rw [hj] at hall; cases hall
+
+/-- checkStructure does accept the tree read back (`roundtrip_tree_is_tree`), and registers its five schemas, all new -/
+example : (match Go.marshal exRT 0 with
+    | .ok j => match Go.unmarshal j #[] with
+      | .ok (id', st') => (Go.checkStructure st' (st'.size + 2) [(id', "")] []).bind fun fresh =>
+            .ok (fresh.map fun (e : NodeId × Go.Info) => e.1)
+      | _ => .err
+    | _ => .err) = .ok [4, 1, 2, 3, 0] := by
+  decide +kernel
+
+/-- `unmarshal_tree_upto_nil` on a document no MarshalJSON writes: "Not" overwrites the field "not" has set (the first
+    subtree, node 0, becomes garbage), "items" is given twice (the array form clears the schema form: node 1 becomes
+    garbage), a `null` element of "allOf" is a nil pointer.  The schema read back (node 5) is a tree of the nodes
+    2, 3, 4 — up to the nil element, which checkStructure refuses -/
+example : Go.unmarshal (.obj [("not", .bool true), ("items", .obj []), ("Not", .bool true),
+      ("items", .arr [.bool true, .obj []]), ("allOf", .arr [.null])]) #[] =
+    .ok (5, #[{}, {}, {}, {}, {},
+      { not := some 2, itemsArray := some [3, 4], allOf := some [1000000000], extra := some [("Not", .bool true)] }]) := by
+  rfl
+
+/-- … checkStructure refuses it because of the nil element only: without it (`Go.UTree.patch`) the four schemas are
+    registered, each once (`unmarshal_tree_upto_nil`) -/
+example : (match Go.unmarshal (.obj [("not", .bool true), ("items", .obj []), ("Not", .bool true),
+      ("items", .arr [.bool true, .obj []]), ("allOf", .arr [.null])]) #[] with
+    | .ok (id', st') =>
+      ((Go.checkStructure st' (st'.size + 2) [(id', "")] []).isOk,
+       (Go.checkStructure (Go.UTree.patch st') (st'.size + 2) [(id', "")] []).bind fun fresh =>
+            .ok (fresh.map fun (e : NodeId × Go.Info) => e.1))
+    | _ => (true, .err)) = (false, .ok [5, 3, 4, 2]) := by
+  decide +kernel
+
 /-- … both Resolve calls do return normally: the original records (schema, `$ref` target, `$dynamicRef` target) … -/
 example : ((Go.resolve exRTEnv 1 0 "").bind fun rs => .ok (rs.infos.map fun (e : NodeId × Go.Info) =>
       (e.1, e.2.resolvedRef, e.2.resolvedDynamicRef))) =
@@ -860,6 +1101,110 @@ example : (match Go.resolve exRTEnv 1 0 "" with
        Spec.valid (Go.RIso.specOf exRT rs fun _ _ => false) 4 0 (.obj [("a", .str "x"), ("b", .null), ("c", .null)]),
        Spec.valid (Go.RIso.specOf exRT rs fun _ _ => false) 4 0 (.obj [("a", .num 1)])]
     | _ => []) = [some true, some false, some false] := by
+  decide +kernel
+
+/-! ### `roundtrip_tree_meaning_resolved_docs` is not vacuous: a root document with two references INTO a Loader
+  document (by pointer and by `$anchor`), read back into the heap it was written from, next to the Loader document -/
+
+def exDocRT : Store := #[
+  { id := "http://a/root.json", allOf := some [1], properties := some [("p", 2)] },   -- 0
+  { ref := "other.json#/$defs/x" },                                                    -- 1
+  { ref := "other.json#tag" },                                                         -- 2
+  { defs := some [("x", 4), ("y", 5)] },                                               -- 3: http://a/other.json
+  { type := "string" },                                                                -- 4
+  { anchor := "tag", minLength := some 2 }]                                            -- 5
+def exDocRTEnv : Go.Env :=
+  { st := exDocRT, reOk := fun _ => true, loader := some [("http://a/other.json", .doc 3)] }
+/-- the schemas of the Loader universe -/
+def exDocRTL (a : NodeId) : Prop := a ∈ [3, 4, 5]
+
+theorem exDocRT_wf : TreeWF exDocRT 0 := by decide
+
+example : ∃ j id' st₂' rs rs', Go.marshal exDocRT 0 = .ok j ∧ Go.unmarshal j exDocRT = .ok (id', st₂') ∧
+    Go.resolve exDocRTEnv 2 0 "" = .ok rs ∧ Go.resolve { exDocRTEnv with st := st₂' } 2 id' "" = .ok rs' ∧
+    rs.log = rs'.log ∧
+      ∀ (reMatch : String → String → Bool) (vfuel : Nat) (inst : Json), Json.WF inst = true →
+        Spec.valid (Go.RIso.specOf exDocRT rs reMatch) vfuel 0 inst =
+          Spec.valid (Go.RIso.specOf st₂' rs' reMatch) vfuel id' inst := by
+  have hall : (match Go.marshal exDocRT 0 with
+      | .ok j => match Go.unmarshal j exDocRT with
+        | .ok r => decide (r.2.size ≤ 1000000000)
+        | _ => false
+      | _ => false) = true := by decide +kernel
+  have hres : (Go.resolve exDocRTEnv 2 0 "").isOk = true := by decide +kernel
+  have hfresh : (match Go.checkStructure exDocRT (exDocRT.size + 2) [(0, "")] [] with
+      | .ok fresh => fresh.map (·.1) == [0, 1, 2]
+      | _ => false) = true := by decide
+  cases hj : Go.marshal exDocRT 0 with
+  | ok j =>
+    rw [hj] at hall
+    dsimp only at hall
+    cases hu : Go.unmarshal j exDocRT with
+    | ok r =>
+      obtain ⟨id', st₂'⟩ := r
+      rw [hu] at hall
+      dsimp only at hall
+      have hs' : st₂'.size ≤ 1000000000 := of_decide_eq_true hall
+      cases h₁ : Go.resolve exDocRTEnv 2 0 "" with
+      | ok rs =>
+        obtain ⟨rs', h₂, -, e2, e3⟩ := roundtrip_tree_meaning_resolved_docs exDocRT 0 j exDocRT id' st₂' exDocRT_wf hj hu
+          (Go.RPerm.storeKeysNodup_of_check _ (by decide)) (by decide) hs' exDocRTEnv exDocRTL
+          (fun a ha => Or.inl (by
+            have : ∀ x ∈ [3, 4, 5], x < exDocRT.size := by decide
+            exact this a ha))
+          (fun _ _ => rfl)
+          (fun a n ha hn f hf x hx => by
+            have hcl : ∀ a ∈ [3, 4, 5], ∀ n, exDocRT.get? a = some n → ∀ f ∈ n.childFields, ∀ x ∈ f.ids, x ∈ [3, 4, 5] := by
+              intro a ha
+              simp only [List.mem_cons, List.not_mem_nil, or_false] at ha
+              rcases ha with rfl | rfl | rfl <;> intro n hn <;> cases hn <;> decide
+            exact hcl a ha n hn f hf x hx)
+          (fun t key l ht hk => by
+            cases ht
+            simp only [Json.lookup_cons, Json.lookup_nil] at hk
+            split at hk
+            · cases hk; show 3 ∈ [3, 4, 5]; decide
+            · cases hk)
+          (fun fresh hf a ha hm => by
+            rw [hf] at hfresh
+            have he : fresh.map (·.1) = [0, 1, 2] := by simpa using hfresh
+            rw [he] at hm
+            have : ∀ x ∈ [3, 4, 5], x ∉ [0, 1, 2] := by decide
+            exact this a ha hm)
+          2 "" rs h₁
+        exact ⟨j, id', st₂', rs, rs', rfl, hu, rfl, h₂, e2, fun reMatch vfuel inst hinst =>
+          (e3 reMatch vfuel inst hinst).2⟩
+      | fuel => rw [h₁] at hres; cases hres
+      | panic => rw [h₁] at hres; cases hres
+      | err => rw [h₁] at hres; cases hres
+    | fuel => rw [hu] at hall; cases hall
+    | panic => rw [hu] at hall; cases hall
+    | err => rw [hu] at hall; cases hall
+  | fuel => rw [hj] at hall; cases hall
+  | panic => rw [hj] at hall; cases hall
+  | err => rw [hj] at hall; cases hall
+
+/-- … the Loader is called once on either side, and the references of the tree read back (root 8; "p" ↦ 6,
+    allOf[0] ↦ 7: "properties" is written first) land in the Loader document … -/
+example : (match Go.marshal exDocRT 0 with
+    | .ok j => match Go.unmarshal j exDocRT with
+      | .ok (id', st') => (Go.resolve { exDocRTEnv with st := st' } 2 id' "").bind fun rs =>
+          .ok (rs.log, rs.infos.map fun (e : NodeId × Go.Info) => (e.1, e.2.resolvedRef))
+      | _ => .err
+    | _ => .err) =
+    .ok (["http://a/other.json"], [(8, none), (7, some 4), (6, some 5), (3, none), (4, none), (5, none)]) := by
+  decide +kernel
+
+/-- … and the verdicts go through it: a string of length 2 is valid, a number is not -/
+example : (match Go.marshal exDocRT 0 with
+    | .ok j => match Go.unmarshal j exDocRT with
+      | .ok (id', st') => match Go.resolve { exDocRTEnv with st := st' } 2 id' "" with
+        | .ok rs =>
+          [Spec.valid (Go.RIso.specOf st' rs fun _ _ => false) 4 id' (.str "xy"),
+           Spec.valid (Go.RIso.specOf st' rs fun _ _ => false) 4 id' (.num 1)]
+        | _ => []
+      | _ => []
+    | _ => []) = [some true, some false] := by
   decide +kernel
 
 /-- an EMPTY non-nil `Vocabulary` map (finding D26, repaired in /repo c50c33e).  Beside a `$schema` other than 2020-12
